@@ -3,8 +3,8 @@
    (2) nothing else is executed before every onStartup hook has succeeded;
    (3) no Synchronization context of a binding with executeHookOnSynchronization=false or
        of a v0 hook is ever shown to a hook;
-   (4) a monitor gets unlocked (Events may flow) only by a successful execution in the
-       main queue whose task covers it, or because the binding is exempt from
+   (4) a monitor gets unlocked (Events may flow) only by a SUCCESSFUL execution (exit 0, or a
+       failure the task allows) in the main queue whose task covers it, or because the binding is exempt from
        Synchronization;
    (5) schedule tasks of a hook exist only once all its kubernetes bindings are unlocked;
    (6) Synchronization executions run in the main queue. *)
@@ -67,10 +67,18 @@ Fixpoint steps_ok (cfg : config) (done : list N) (prev : sobs) (acts : list acti
       && forallb (fun b => mem_N b (so_unlocked prev)
                            || sync_exempt cfg b
                            || match a with
-                              | Finish q _ | FinishWait q =>
+                              | Finish q ok =>
                                   N.eqb q 0 && match find_q 0 (so_queues prev) with
                                                | Some m => match qo_items m with
-                                                           | t :: _ => mem_N b (t_mids t)
+                                                           | t :: _ => (ok || t_allow t) && mem_N b (t_mids t)
+                                                           | [] => false
+                                                           end
+                                               | None => false
+                                               end
+                              | FinishWait q =>
+                                  N.eqb q 0 && match find_q 0 (so_queues prev) with
+                                               | Some m => match qo_items m with
+                                                           | t :: _ => t_allow t && mem_N b (t_mids t)
                                                            | [] => false
                                                            end
                                                | None => false
